@@ -488,6 +488,11 @@ func sweepCaseAt(c *vlib.Case, kind int, rigid bool, prefix, api string) {
 	if rc == nil {
 		return
 	}
+	sweepRegion(c, rc, rigid, api)
+}
+
+// sweepRegion hands one placed region to TriangulateMesh and judges the result on the pre-image.
+func sweepRegion(c *vlib.Case, rc *regionCase, rigid bool, api string) {
 	w := mkWitness(api, rc.fam, rc.reg, rc.pl, rc.imgs)
 	mesh := buildMesh(c.Rng, rc.imgs)
 	var out [][3]C2
@@ -522,9 +527,248 @@ func sweepSections(r *vlib.Run) {
 	// inputs whose own grid axes coincide with the library's internal sweep axes (they are turned
 	// by the angle of its fixed re-framing), some with two vertices made bit-identical along the
 	// sweep axis (DESIGN 23.3: the orientation that defeated the single fixed angle); own API label
+	r.Section("sweep.fallback-frames", r.N(600, 8000), vlib.SectionOpts{}, fallbackAnglesCase)
 	r.Section("sweep.internal-angle", r.N(1500, 20000), vlib.SectionOpts{}, func(c *vlib.Case) {
 		sweepCaseAt(c, c.Rng.Intn(2), true, "sweepangle", "model2d.TriangulateMesh[input-at-the-internal-sweep-angle]")
 	})
+}
+
+// The library re-expresses its input in a frame turned by the first angle of this list for which
+// no two vertices share an x value and no segment is vertical up to rounding (misalignMesh).
+var libFrameAngles = [...]float64{0.5037616150469717, 1.3320041402435022, 2.2160538930567923, 0.1279395941714253, 2.8974706190742054}
+
+// rationalDirection returns an integer vector (|components| <= limit) whose direction is within
+// about 1/limit^2 of (dx, dy): a convergent of the continued fraction of the slope.
+func rationalDirection(dx, dy float64, limit int64) (int64, int64) {
+	swap := math.Abs(dx) > math.Abs(dy)
+	if swap {
+		dx, dy = dy, dx
+	}
+	// |dx/dy| <= 1
+	x := math.Abs(dx / dy)
+	var p0, q0, p1, q1 int64 = 0, 1, 1, 0
+	for i := 0; i < 40; i++ {
+		a := int64(math.Floor(x))
+		p2, q2 := a*p1+p0, a*q1+q0
+		if q2 > limit || p2 > limit {
+			break
+		}
+		p0, q0, p1, q1 = p1, q1, p2, q2
+		f := x - float64(a)
+		if f < 1e-15 {
+			break
+		}
+		x = 1 / f
+	}
+	p, q := p1, q1
+	if q == 0 {
+		p, q = 0, 1
+	}
+	if dx < 0 {
+		p = -p
+	}
+	if dy < 0 {
+		q = -q
+	}
+	if swap {
+		return q, p
+	}
+	return p, q
+}
+
+// fallbackAnglesCase: a convex polygon (a zonogon) that has, for each angle of a chosen subset of
+// the library's frame angles, a pair of edges that are vertical in that frame - bit-exactly: one
+// end of the edge is moved by a 1e-10th of its length until both ends have identical x there.
+// Whatever the subset (never all five), one of the frames is usable and the result must be right.
+func fallbackAnglesCase(c *vlib.Case) {
+	rng := c.Rng
+	const api = "model2d.TriangulateMesh[edges vertical in several of the internal frames]"
+	var blocked []int
+	switch rng.Intn(4) {
+	case 0:
+		blocked = []int{0, 4}
+	case 1:
+		blocked = []int{0, 1 + rng.Intn(4)}
+	case 2:
+		k := 1 + rng.Intn(4) // the first k frames
+		for i := 0; i < k; i++ {
+			blocked = append(blocked, i)
+		}
+	default:
+		for i := range libFrameAngles {
+			if rng.Intn(2) == 0 {
+				blocked = append(blocked, i)
+			}
+		}
+		if len(blocked) == len(libFrameAngles) {
+			blocked = blocked[:4]
+		}
+	}
+	type ev struct {
+		v     P
+		frame int // -1: generic edge
+	}
+	var vecs []ev
+	// a third of the polygons also have one edge that is 1e-8 of their extent or shorter: the
+	// other edges are stretched by an integer factor until the bounding box diagonal exceeds 1.2e8
+	tiny := rng.Intn(3) == 0
+	for _, fi := range blocked {
+		a := libFrameAngles[fi]
+		px, py := rationalDirection(-math.Sin(a), math.Cos(a), 1<<22)
+		vecs = append(vecs, ev{P{X: px, Y: py}, fi})
+	}
+	for n := 1 + rng.Intn(3); n > 0 || len(vecs) < 2; n-- {
+		vecs = append(vecs, ev{P{X: rng.Int63n(1<<21) - 1<<20, Y: rng.Int63n(1<<21) - 1<<20}, -1})
+	}
+	if tiny {
+		var w, h int64
+		for _, e := range vecs {
+			w, h = w+abs64(e.v.X), h+abs64(e.v.Y)
+		}
+		f := int64(1.2e8/math.Hypot(float64(w), float64(h))) + 1
+		for i := range vecs {
+			vecs[i].v = P{X: vecs[i].v.X * f, Y: vecs[i].v.Y * f}
+		}
+		vecs = append(vecs, ev{[]P{{X: 1, Y: 0}, {X: 0, Y: 1}, {X: 1, Y: 1}, {X: -1, Y: 2}, {X: 2, Y: 1}}[rng.Intn(5)], -1})
+		c.Count("fallback.polygons_with_an_edge_below_1e-8_of_the_extent_drawn", 1)
+	}
+	// all 2m edge vectors (each and its negative) sorted by polar angle: a convex closed polygon
+	var all []ev
+	for _, e := range vecs {
+		if e.v.X == 0 && e.v.Y == 0 {
+			c.Undecided("zero edge vector drawn")
+			return
+		}
+		all = append(all, e, ev{P{X: -e.v.X, Y: -e.v.Y}, e.frame})
+	}
+	sort.Slice(all, func(i, j int) bool {
+		return math.Atan2(float64(all[i].v.Y), float64(all[i].v.X)) < math.Atan2(float64(all[j].v.Y), float64(all[j].v.X))
+	})
+	// start the walk so that the closing edge is a generic one
+	for k := 0; k < len(all) && all[len(all)-1].frame >= 0; k++ {
+		all = append(all[1:], all[0])
+	}
+	if all[len(all)-1].frame >= 0 {
+		c.Undecided("no generic closing edge")
+		return
+	}
+	loop := make([]P, len(all))
+	var cur, lo, hi P
+	for i, e := range all {
+		loop[i] = cur
+		lo, hi = P{X: min64(lo.X, cur.X), Y: min64(lo.Y, cur.Y)}, P{X: max64(hi.X, cur.X), Y: max64(hi.Y, cur.Y)}
+		cur = P{X: cur.X + e.v.X, Y: cur.Y + e.v.Y}
+	}
+	for i := range loop {
+		loop[i] = P{X: loop[i].X - (lo.X+hi.X)/2, Y: loop[i].Y - (lo.Y+hi.Y)/2}
+	}
+	reg, why := c14ref.Certify([][]P{append([]P{}, loop...)})
+	if reg == nil {
+		c.Undecided("zonogon not certified: " + why)
+		return
+	}
+	reg.OrientForMesh()
+	pl := &placement{exact: true, scale: 1, cos: 1, desc: "identity"}
+	if rng.Intn(2) == 0 {
+		k := rng.Intn(21) - 10
+		pl.scale, pl.desc = math.Ldexp(1, k), fmt.Sprintf("scale 2^%d", k)
+	}
+	imgs, index, ok := images(reg, pl)
+	if !ok {
+		c.Undecided("placement not exact")
+		return
+	}
+	// edge i of the original walk runs from loop[i] to loop[i+1]; OrientForMesh may have reversed
+	// the loop, so edges are found again through their end points
+	frameOf := map[[2]P]int{}
+	for i, e := range all {
+		a, b := loop[i], loop[(i+1)%len(loop)]
+		frameOf[[2]P{a, b}], frameOf[[2]P{b, a}] = e.frame, e.frame
+	}
+	im := imgs[0]
+	pre := reg.Loops[0]
+	n := len(im)
+	ties := 0
+	for i := 0; i < n; i++ {
+		j := (i + 1) % n
+		fi, known := frameOf[[2]P{pre[i], pre[j]}]
+		if !known || fi < 0 || j == 0 {
+			continue
+		}
+		ax := model2d.NewCoordPolar(libFrameAngles[fi], 1.0)
+		target := ax.Dot(im[i])
+		q := im[j]
+		q2 := q.Add(ax.Scale(target - ax.Dot(q)))
+		if q2.Dist(q) > 1e-9*q.Dist(im[i]) {
+			c.Undecided("edge direction too far from the frame's vertical")
+			return
+		}
+		found := false
+		for k := 0; k < 800 && !found; k++ {
+			cand := q2
+			for s := 0; s < (k+1)/2; s++ {
+				if k%2 == 1 {
+					cand.X = math.Nextafter(cand.X, math.Inf(1))
+				} else {
+					cand.X = math.Nextafter(cand.X, math.Inf(-1))
+				}
+			}
+			if _, taken := index[cand]; ax.Dot(cand) == target && (!taken || cand == q) {
+				p0 := index[q]
+				delete(index, q)
+				index[cand] = p0
+				im[j] = cand
+				found = true
+			}
+		}
+		if found {
+			ties++
+		}
+	}
+	if ties == 0 {
+		c.Undecided("no edge could be made exactly vertical")
+		return
+	}
+	c.Count("fallback.polygons", 1)
+	c.Count("fallback.edges_made_exactly_vertical_in_an_internal_frame", int64(ties))
+	c.Count(fmt.Sprintf("fallback.frames_blocked_%d", len(blocked)), 1)
+	first := 0
+	for first < len(libFrameAngles) {
+		isB := false
+		for _, b := range blocked {
+			if b == first {
+				isB = true
+			}
+		}
+		if !isB {
+			break
+		}
+		first++
+	}
+	c.Count(fmt.Sprintf("fallback.first_usable_frame_is_number_%d", first), 1)
+	rc := &regionCase{reg: reg, fam: fmt.Sprintf("zonogon with edges vertical in internal frames %v", blocked), pl: pl, imgs: imgs, idx: index}
+	sweepRegion(c, rc, false, api)
+}
+
+func abs64(x int64) int64 {
+	if x < 0 {
+		return -x
+	}
+	return x
+}
+
+func min64(a, b int64) int64 {
+	if a < b {
+		return a
+	}
+	return b
+}
+
+func max64(a, b int64) int64 {
+	if a > b {
+		return a
+	}
+	return b
 }
 
 func abs(x int) int {
